@@ -268,13 +268,14 @@ func loadContracts(path string) (*ContractSet, error) {
 				}
 				cur.Variants = append(cur.Variants, v)
 			case "loop":
-				// loop N invariant [tag] expr
-				if len(fields) < 4 || fields[2] != "invariant" {
+				// loop N invariant [tag] expr      (inductive: entry + preserved, assumed at the head)
+				// loop N body [tag] expr           (per-iteration postcondition: asserted at the back edge only)
+				if len(fields) < 4 || (fields[2] != "invariant" && fields[2] != "body") {
 					return fmt.Errorf("%s:%d: bad loop clause", path, line)
 				}
 				nr, _ := strconv.Atoi(fields[1])
-				rest2 := strings.TrimSpace(strings.SplitN(t, "invariant", 2)[1])
-				cl := Clause{Kind: "invariant", Line: line}
+				rest2 := strings.TrimSpace(strings.SplitN(t, " "+fields[2]+" ", 2)[1])
+				cl := Clause{Kind: fields[2], Line: line}
 				if m := tagRe.FindStringSubmatch(rest2); m != nil {
 					cl.Props = strings.Split(m[1], ",")
 					cl.Name = strings.ReplaceAll(m[2], "$fn", cur.Short)
